@@ -9,7 +9,7 @@ def check(rep):
     ER.rule_returns_element(ctx)
     ER.rule_guards(ctx)
     ER.rule_unweighted(ctx)
-    ER.rule_choice_search(ctx, rid="C16.SHARED-TAIL", parts=("prefix",))
+    ER.rule_choice_search(ctx, rid="C16.SHARED-TAIL", parts=("prefix", "clamp"))
     ER.rule_random_guarded(ctx, rid="C16.RANDOM-DELEGATES")
     ER.rule_retained_arguments(ctx, rid="C16.NO-RETAINED-ARGUMENT", modules={"binning/binning.py"})
     ER.rule_value_keyed_caches(ctx, rid="C16.NO-VALUE-KEYED-CACHE", modules={"binning/binning.py"})
